@@ -145,7 +145,7 @@ namespace AIToolbox::POMDP {
     // should be seen enough times to still keep a decent approximation of its
     // entropy term. Minor errors are ok since this is still an estimation.
     template <>
-    void BeliefNode<true>::updateBeliefAndKnowledge(const size_t s) {
+    inline void BeliefNode<true>::updateBeliefAndKnowledge(const size_t s) {
         // Remove entropy term for this state from summatory
         knowledgeMeasure_ -= trackBelief_[s].negativeEntropy;
         // Updating belief
@@ -160,7 +160,7 @@ namespace AIToolbox::POMDP {
 
     // This is the Max-Belief implementation
     template <>
-    void BeliefNode<false>::updateBeliefAndKnowledge(const size_t s) {
+    inline void BeliefNode<false>::updateBeliefAndKnowledge(const size_t s) {
         trackBelief_[s].N += 1;
 
         if ( trackBelief_[s].N > trackBelief_[maxS_].N )
